@@ -219,6 +219,7 @@ def run(ctx):
         ("R12.c", "dispatcher/schedule: attributes written by dispatch/add are re-established by reset with the same initialising expressions as __init__"),
         ("R12.d", "GraphUpdater.reset restores a deep copy of a construction-time deep copy that nothing mutates"),
         ("R12.e", "environment reset: dispatcher.reset() before the observation; multi env forwards its full stored configuration"),
+        ("R12.f", "no observer keeps a reference to an object that its owner replaces on reset (machine lists of the schedule, tracking vectors) unless its own reset re-reads it"),
     ):
         chk.rule(rid, txt)
     lc = Lifecycle(ctx)
@@ -235,6 +236,9 @@ def run(ctx):
         if r is not None:
             n += 1
     chk.floor("R12.a", n, 12, "concrete observer classes")
+
+    # ---------------------------------------------------------------- R12.f
+    stale_aliases(ctx, lc, cone, disp)
 
     # ---------------------------------------------------------------- R12.b
     reset_order(ctx, lc, cone, obs, disp, "reset", "R12.b")
@@ -677,3 +681,65 @@ def path_reset_cover(ctx, cls, upd, rst, rule, label, skip=(), also=()):
                     )
                     return n
     return n
+
+
+# --------------------------------------------------------------------------
+def stale_aliases(ctx, lc, cone, disp):
+    """R12.f - Schedule.reset and Dispatcher.reset *rebind* their containers
+    (the list of machine lists, the three tracking vectors).  An observer that
+    stores such a container in an attribute at construction keeps the object
+    of the first episode: after a reset it reads the old episode's data.  The
+    attribute must be re-read in the observer's own reset (or not be kept)."""
+    from .roles import backing_attr
+
+    chk, repo = ctx.chk, ctx.repo
+    sched = repo.find_class("Schedule")
+    # read expressions (suffixes) that denote an object the owner rebinds on reset
+    rebound = set()
+    s_rst = sched.methods.get("reset")
+    if s_rst is not None:
+        sb = backing_attr(sched, "schedule") or "schedule"
+        if any(w.attr in ("schedule", sb) and w.kind == "rebind" for w in lc.attr_writes(s_rst, sched)):
+            rebound.add(".schedule.schedule")
+    d_rst = repo.need_method(disp, "reset")
+    strong = {w.attr for w in lc.attr_writes(d_rst, disp) if w.kind == "rebind"}
+    for prop in ("machine_next_available_time", "job_next_operation_index", "job_next_available_time"):
+        if backing_attr(disp, prop) in strong:
+            rebound.add("." + prop)
+    chk.analysed["owner_rebound_components"] = sorted(rebound)
+    n = 0
+    for c in cone:
+        rst = repo.method(c, "reset")
+        reset_strong = {w.attr for w in lc.attr_writes(rst, c) if w.kind == "rebind"} if rst is not None else set()
+        attrs = set()
+        for q in c.mro:
+            k = repo.classes.get(q)
+            if k is None:
+                continue
+            for m in k.methods.values():
+                for nd in own_nodes(m.node):
+                    tgs = nd.targets if isinstance(nd, ast.Assign) else [nd.target] if isinstance(nd, ast.AnnAssign) and nd.value is not None else []
+                    for t in tgs:
+                        if isinstance(t, ast.Attribute) and isinstance(t.value, ast.Name) and m.params and t.value.id == m.params[0]:
+                            attrs.add(t.attr)
+        for attr in sorted(attrs):
+            for mf, val in lc.attr_sources(c, attr):
+                if val is None:
+                    continue
+                txt = ctx.norm.xtext(mf, val).replace(" ", "")
+                hit = next((r for r in rebound if txt.endswith(r)), None)
+                if hit is None:
+                    continue
+                n += 1
+                if attr in reset_strong:
+                    chk.ok("R12.f", c.qualname, mf.loc(val), f"self.{attr} = ...{hit} is re-read by reset")
+                else:
+                    chk.violation(
+                        "R12.f", f"{c.qualname}.{mf.name}", val,
+                        f"`self.{attr} = {ast.unparse(val)[:60]}` keeps the object behind `{hit[1:]}`, which its owner replaces by a new "
+                        f"one on every reset, and {c.name}.reset never re-reads it: from the second episode on the observer "
+                        "looks at the containers of the first episode",
+                        loc=mf.loc(val),
+                    )
+    if n == 0:
+        chk.ok("R12.f", "observers", "", f"no observer attribute aliases an owner-rebound component ({', '.join(sorted(rebound)) or 'none'})")
